@@ -1,4 +1,5 @@
 import D3.Properties.C05
+import D3.Gen.Link05
 #print axioms D3.C05.query_exact
 #print axioms D3.C05.query_tree_exact
 #print axioms D3.C05.empty_query_ok
@@ -10,3 +11,6 @@ import D3.Properties.C05
 #print axioms D3.Aabb.collectTree_exact
 #print axioms D3.Aabb.wfCheck_sound
 #print axioms D3.Aabb.insert_spec
+#print axioms D3.Gen.K05.aabb_overlap_link
+#print axioms D3.Gen.K05.merge_aabb_link
+#print axioms D3.Gen.K05.aabb_volume_link
